@@ -308,6 +308,34 @@ def run(ctx: Ctx) -> Result:
             finally:
                 F.remove_contract(cid)
     vmrun.in_big_thread(vmwide)
+    # a function defined by an EARLIER run (its definitions handed on through Tape(definitions=...), as run_auth_scripts and the REPL do)
+    # and called in this run obeys THIS run's flags: the probe inside the called body shows what it shows at top level
+    def cross_run_defs():
+        F = vmrun.impl.functions()
+        for pname in ('disallow_OP_EVAL', 'ts_threshold=0', 'ts_threshold=2000', 'flag1=off', 'flag9=off', 'flag2=off', 'epoch_threshold=5000'):
+            if pname not in PR: continue
+            mod, cache, pb, keys = PR[pname]
+            cfg = vmrun.Cfg(); mod(cfg)
+            def go(script, defs):
+                with vmrun.Env(cfg) as env:
+                    t = F.Tape(script, definitions=defs) if defs is not None else F.Tape(script)
+                    t.contracts = {**F._contracts, **env.contracts()}; t.plugins = {**F._plugins, **env.plugins()}
+                    st = F.Stack(); c = {'timestamp': int(F.time()), **cache}
+                    try: F.run_tape(t, st, c, additional_flags=cfg.additional_flags())
+                    except BaseException as e:
+                        if isinstance(e, (KeyboardInterrupt, SystemExit)): raise
+                        return 'ERR:' + type(e).__name__
+                    return tuple((k.hex(), repr(c.get(k))) for k in keys)
+            with vmrun.Env(vmrun.Cfg()) as env0:
+                try: t1, _, _ = F.run_script(op('DEF') + u1(9) + u2(len(pb)) + pb, dict(cache))          # defined under the DEFAULT flags
+                except BaseException as e: continue
+            top_ = go(pb, None)
+            called = go(op('CALL') + u1(9), t1.definitions)
+            res.note_case(('cross-run-definition', pname))
+            if called != top_ and len(res.violations) < 10:
+                res.violations.append({'input': {'probe': pname, 'nesting': ['DEF in an earlier run / CALL in this run'], 'cfg': cfg.line(), 'cache': vmrun.cache_str(cache, False), 'script': (op('CALL') + u1(9)).hex(), 'definition': pb.hex()},
+                                       'expected': f'same observable as at top level of this run: {top_}', 'observed': str(called), 'how_to_run': './check C09 --tier quick'})
+    vmrun.in_big_thread(cross_run_defs)
     # K2: the flag instructions do not affect integer flags
     cfg = vmrun.Cfg()
     k2a = vmrun.run_impl(cfg, {}, op('SET_FLAG') + b'\x01\x01')
